@@ -1126,8 +1126,22 @@ func (m *Machine) idx(fr *frame, it T, n int, signed bool) int {
 	}
 	c := m.C
 	w := it.S.W
+	// a large table indexed by a symbolic value (a lookup table of 256 precomputed entries, say): case-splitting over
+	// every entry costs n paths and n feasibility queries each time. Beyond 64 entries only representative positions
+	// (both ends, the middle) and the out-of-range case are followed, and the run says so (NOTE reduced coverage).
+	var reps map[int]bool
+	if n > 64 {
+		reps = map[int]bool{}
+		for _, r := range []int{0, 1, 2, 3, n/2 - 1, n / 2, n/2 + 1, n - 4, n - 3, n - 2, n - 1} {
+			reps[r] = true
+		}
+		m.Res.Degraded[fmt.Sprintf("symbolic index into a table of more than 64 entries: representative positions only")]++
+	}
 	k := m.choose("idx", n+1, func(i int) bool {
 		if i < n {
+			if reps != nil && !reps[i] {
+				return false
+			}
 			return m.feasible(c.Eq(it, c.BVC(uint64(i), w)))
 		}
 		var inr T
